@@ -37,6 +37,15 @@ theorem fileAt_writeFile (st : FileSt) (p p' : Nat) (b : FileBytes) :
   unfold fileAt writeFile
   exact assoc_write st.files p p' b
 
+theorem fileAt_removeFile_ne (st : FileSt) (p p' : Nat) (h : p' ≠ p) :
+    (st.removeFile p).fileAt p' = st.fileAt p' := by
+  unfold fileAt removeFile
+  simp only
+  rw [find_filter_ne st.files p p' h]
+
+@[simp] theorem pathOf_removeFile (st : FileSt) (p : Nat) (d : Nat) :
+    (st.removeFile p).pathOf d = st.pathOf d := rfl
+
 @[simp] theorem pathOf_writeFile (st : FileSt) (p : Nat) (b : FileBytes) (d : Nat) :
     (st.writeFile p b).pathOf d = st.pathOf d := rfl
 
@@ -51,12 +60,16 @@ theorem inv_empty : Inv FileSt.empty :=
 
 /-- `pushNamed` (recording after the verified copy) keeps the invariant, whether the
     content verifies or not. -/
-theorem inv_pushNamed (c : StoreCfg) (st : FileSt) (n : Node) (nm : Nat) (good : Bool) (h : Inv st) :
-    Inv (pushNamed c false st n nm good).1 := by
+theorem inv_pushNamed (c : StoreCfg) (st : FileSt) (n : Node) (nm : Nat) (good : Bool) (h : Inv st)
+    (noOver rmFail : Bool := false) :
+    Inv (pushNamed c false st n nm good noOver rmFail).1 := by
   unfold pushNamed
   by_cases hn : nm ∈ st.names
   · simp only [hn, if_true]; exact h
   · simp only [hn, if_false, Bool.false_eq_true]
+    by_cases ho : noOver = true ∧ (st.fileAt nm).isSome = true
+    · simp only [ho, and_self, if_true]; exact h
+    simp only [ho, if_false]
     cases good with
     | true =>
       constructor
@@ -89,17 +102,32 @@ theorem inv_pushNamed (c : StoreCfg) (st : FileSt) (n : Node) (nm : Nat) (good :
           · exact h.named x e
     | false =>
       simp only [Bool.false_eq_true, if_false]
-      constructor
-      · intro d p hp
-        obtain ⟨h1, h2⟩ := h.d2p d p hp
-        have hne : p ≠ nm := fun e => hn (e ▸ h2)
-        refine ⟨?_, h2⟩
-        rw [fileAt_writeFile]; simp [hne, h1]
-      · intro x hx
-        rw [fileAt_writeFile]
-        have hxe : x ≠ nm := fun e => hn (e ▸ hx)
-        simp only [hxe, if_false]
-        exact h.named x hx
+      cases rmFail with
+      | true =>
+        simp only [if_true]
+        constructor
+        · intro d p hp
+          obtain ⟨h1, h2⟩ := h.d2p d p hp
+          have hne : p ≠ nm := fun e => hn (e ▸ h2)
+          refine ⟨?_, h2⟩
+          rw [fileAt_removeFile_ne _ _ _ hne]; exact h1
+        · intro x hx
+          have hxe : x ≠ nm := fun e => hn (e ▸ hx)
+          rw [fileAt_removeFile_ne _ _ _ hxe]
+          exact h.named x hx
+      | false =>
+        simp only [Bool.false_eq_true, if_false]
+        constructor
+        · intro d p hp
+          obtain ⟨h1, h2⟩ := h.d2p d p hp
+          have hne : p ≠ nm := fun e => hn (e ▸ h2)
+          refine ⟨?_, h2⟩
+          rw [fileAt_writeFile]; simp [hne, h1]
+        · intro x hx
+          rw [fileAt_writeFile]
+          have hxe : x ≠ nm := fun e => hn (e ▸ hx)
+          simp only [hxe, if_false]
+          exact h.named x hx
 
 theorem inv_restore (c : StoreCfg) (st : FileSt) (m : Node) (h : Inv st) : Inv (restore c st m) := by
   unfold restore
@@ -135,8 +163,9 @@ theorem inv_congr (a b : FileSt) (h1 : a.names = b.names) (h2 : a.d2p = b.d2p) (
     rw [h3]; exact this
 
 /-- `Store.Push` keeps the invariant — for named and unnamed content, verified or not. -/
-theorem inv_push (c : StoreCfg) (st : FileSt) (d : SDesc) (good : Bool) (h : Inv st) :
-    Inv (push c false st d good).1 := by
+theorem inv_push (c : StoreCfg) (st : FileSt) (d : SDesc) (good : Bool) (h : Inv st)
+    (forceCAS noOver rmFail : Bool := false) :
+    Inv (push c false st d good forceCAS noOver rmFail).1 := by
   unfold push
   cases hname : d.name with
   | none =>
@@ -149,22 +178,22 @@ theorem inv_push (c : StoreCfg) (st : FileSt) (d : SDesc) (good : Bool) (h : Inv
       | true =>
         simp only [Bool.not_true, Bool.false_eq_true, if_false]
         have h0 : Inv { st with fallback := d.node :: st.fallback } := inv_congr _ st rfl rfl rfl h
-        by_cases hm : c.isMan d.node = true
+        by_cases hm : (c.isMan d.node && !forceCAS) = true
         · simp only [hm, if_true]
           exact inv_congr _ (restore c _ d.node) rfl rfl rfl (inv_restore c _ d.node h0)
         · simp only [hm, Bool.false_eq_true, if_false]
           exact inv_congr _ { st with fallback := d.node :: st.fallback } rfl rfl rfl h0
   | some nm =>
     simp only
-    have hp := inv_pushNamed c st d.node nm good h
-    cases hr : pushNamed c false st d.node nm good with
+    have hp := inv_pushNamed c st d.node nm good h noOver rmFail
+    cases hr : pushNamed c false st d.node nm good noOver rmFail with
     | mk s r =>
       rw [hr] at hp
       cases r with
       | error e => exact hp
       | ok u =>
         simp only
-        by_cases hm : c.isMan d.node = true
+        by_cases hm : (c.isMan d.node && !forceCAS) = true
         · simp only [hm, if_true]
           exact inv_congr _ (restore c s d.node) rfl rfl rfl (inv_restore c s d.node hp)
         · simp only [hm, Bool.false_eq_true, if_false]
